@@ -5,4 +5,13 @@ cd "$(dirname "$0")/coq"
 /venv/bin/python -c "import sys; sys.path.insert(0,'/verif'); from harness import common; common.gen_coqproject()"
 coq_makefile -f _CoqProject -o Makefile
 timeout 3000 make -j16
+
+# whole-tree gate: nothing admitted / assumed anywhere in the development
+/venv/bin/python -c "
+import sys; sys.path.insert(0,'/verif')
+from harness import common
+bad = common.grep_gate()
+print('\n'.join(bad))
+sys.exit(1 if bad else 0)"
+echo "grep gate ok"
 echo "setup ok"
